@@ -95,7 +95,8 @@ def case(draw, nmax=12, force_batch=None):
     for _ in range(max(0, B - 1)):
         e = draw(phylo.tree_part(n, (t["kind"],)))
         extra.append({k: e[k] for k in ("ratios", "root_inc", "shifts") if k in e})
-    return {"topo": topo, "tree": t, "B": B, "extra": extra, "route": draw(st.sampled_from(["json", "json", "keep", "transform"]))}
+    return {"topo": topo, "tree": t, "B": B, "extra": extra, "route": draw(st.sampled_from(["json", "json", "keep", "transform"])),
+            "int_dates": draw(st.booleans())}
 
 
 def slices(c):
@@ -127,6 +128,9 @@ def params_tensor(c, hs, n):
 def tree_spec(c, names, dates, topo, rows, keep_newick=None):
     kind = c["tree"]["kind"]
     B = c["B"]
+    if c.get("int_dates"):
+        # whole-number dates written the way people write them (2011, not 2011.0)
+        dates = [int(d) if float(d).is_integer() else d for d in dates]
     taxa = {"id": "taxa", "type": "Taxa", "taxa": [{"id": names[i], "type": "Taxon", "attributes": {"date": dates[i]}} for i in range(topo.n)]}
     spec = {"id": "tree", "type": "ReparameterizedTimeTreeModel", "newick": keep_newick or topo.newick(names), "taxa": taxa}
     if keep_newick:
@@ -310,7 +314,7 @@ def smooth_body(c):
     tip_h = c["tree"]["tip_heights"]
     k = c["k"]
     res = Res(nontrivial=abs(k - 1.0) > 1e-6, key=(sorted(sorted(x) for x in topo.clades()), tip_h, round(k, 6), c["B"], [np.round(t["shifts"], 6).tolist() for t in sl]),
-              labels=("smooth", "B=%d" % c["B"], "k<1" if k < 1 else "k>1"), tags={"cls": "shift_smooth", "batched": c["B"] > 0})
+              labels=("smooth", "B=%d" % c["B"], "k<=0" if k <= 0 else ("k<1" if k < 1 else "k>1")), tags={"cls": "shift_smooth", "batched": c["B"] > 0})
     rows = [(t["shifts"], None) for t in sl]
     tree, dic = tt.build(tree_spec(dict(c, B=0), names, dates, topo, rows[:1]))
     tr = DifferenceNodeHeightTransform(tree, k)
@@ -321,7 +325,8 @@ def smooth_body(c):
         h = {i: tip_h[i] for i in range(n)}
         for node, l, r in topo.post:
             m = max(h[l], h[r])
-            h[node] = m + np.log(np.exp(k * (h[l] - m)) + np.exp(k * (h[r] - m))) / k + shifts[node - n]
+            # k <= 0 is documented as the exact maximum
+            h[node] = m + (np.log(np.exp(k * (h[l] - m)) + np.exp(k * (h[r] - m))) / k if k > 0 else 0.0) + shifts[node - n]
         want.append([h[i] for i in range(n, 2 * n - 1)])
     want = np.array(want if c["B"] else want[0])
     tol = 1e-9 * max(1.0, float(np.max(want)))
@@ -359,7 +364,7 @@ def smooth_case(draw):
     t.pop("clock", None)
     c["tree"] = t
     c["extra"] = [{"shifts": draw(phylo.tree_part(n, ("shift",)))["shifts"]} for _ in range(max(0, c["B"] - 1))]
-    c["k"] = draw(st.sampled_from([0.5, 2.0, 5.0, 20.0, draw(logu(0.2, 50.0))]))
+    c["k"] = draw(st.sampled_from([0.5, 2.0, 5.0, 20.0, draw(logu(0.2, 50.0)), draw(logu(0.2, 50.0)), 0.0, -1.0, -draw(logu(0.2, 50.0))]))
     c["move"] = draw(st.sampled_from(["none", "cpu", "cpu", "to64"]))
     return c
 
